@@ -21,6 +21,8 @@
 //            3-16 steps, so that its server-side gateway queue holds unsent Messages when a supercede prunes it (a paused reader is audited
 //            after it has drained; all are drained before the final audit).  IdxSession::ObserveSupercede counts, in process, how often a
 //            node was superceded while an index update of it was still queued for a subscriber.
+//            The "snapbatch" operation is ONE BATCH {index change(s) of one of the sender's nodes; GETDATA of it | the same subscription again | a
+//            wider subscription covering it} (20% in the reverse order) by a session that may already be subscribed to that node.
 //            Every session may subscribe (plain, two patterns at once, or BATCH{quiet subscribe, GETDATA}) to its OWN and to foreign
 //            index nodes and unsubscribe again; each keeps per node path a list and applies every PR_RESULT_INDEXUPDATED string
 //            in arrival order (c / i<pos>:<name> / r<pos>:<name>; a remove that does not fit, an insert beyond the end or a
@@ -526,10 +528,10 @@ static void PredictCloneDup(const Truth & T, const std::string & src, const std:
 
 // ---- one history ---------------------------------------------------------------------------------------------------------------
 enum OpKind { OP_ENSURE, OP_INSERT, OP_SETIDX, OP_SETPLAIN, OP_REORDER, OP_REMOVE, OP_SUBSCRIBE, OP_UNSUBSCRIBE, OP_GETDATA, OP_JOIN, OP_LEAVE, OP_CLONE, OP_SAVE, OP_RESTORE, OP_SETNODE,
-              OP_SETTREES, OP_MAXITEMS, OP_INSERT_CHECKED, OP_REORDER_CHECKED, OP_QUIET, OP_SUPERCEDE, OP_PAUSE, NUM_OPS };
+              OP_SETTREES, OP_MAXITEMS, OP_INSERT_CHECKED, OP_REORDER_CHECKED, OP_QUIET, OP_SUPERCEDE, OP_PAUSE, OP_SNAPBATCH, NUM_OPS };
 static const char * OPNAME[NUM_OPS] = {"ensure", "insert", "setidx", "setplain", "reorder", "remove", "subscribe", "unsubscribe", "getdata", "join", "leave", "clone", "save", "restore", "setnode",
-              "settrees", "maxitems", "insert_checked", "reorder_checked", "quiet", "supercede", "pause"};
-static const uint32 OPWEIGHT[NUM_OPS] = {5, 17, 9, 6, 13, 10, 8, 3, 4, 2, 2, 4, 3, 4, 3, 1, 1, 2, 2, 2, 5, 3};
+              "settrees", "maxitems", "insert_checked", "reorder_checked", "quiet", "supercede", "pause", "snapbatch"};
+static const uint32 OPWEIGHT[NUM_OPS] = {5, 17, 9, 6, 13, 10, 8, 3, 4, 2, 2, 4, 3, 4, 3, 1, 1, 2, 2, 2, 5, 3, 5};
 
 // Which server path created a session's indexes matters (F15: the per-session flag that enables own-node snapshots is set on each
 // index-creating path separately), so a third of the sessions stick to ONE index-creating operation for their whole life.
@@ -617,6 +619,29 @@ static void RunHistory(long k, uint64_t seed, long nOps)
          }
          what.resize(what.size() - 3);
          if (R(2)) { what = "BATCH{" + what + "}"; a->c->Send(CmdBatch(v)); vh::stat("batches"); } else { what = "back to back: " + what; for (size_t i = 0; i < v.size(); i++) a->c->Send(v[i]); }
+      } break;
+      case OP_SNAPBATCH: {
+         // ONE BATCH that changes the index of one of the sender's nodes and asks for a snapshot of it (GETDATA, the same subscription again, a
+         // wider subscription), in either order, by a session that may already be subscribed to that node: the snapshot inside the update stream is
+         // clear + inserts, and whatever index update of the batch is still pending for the sender must not be applied on top of a snapshot that has it
+         const std::string ix = PickIdx(false), own = a->c->root + "/" + ix; std::vector<MessageRef> v; static const OpKind ik[] = {OP_INSERT, OP_INSERT, OP_SETIDX, OP_REORDER, OP_REMOVE};
+         Names eff = a->subs; for (std::map<int32, Names>::const_iterator ps = a->pendingSub.begin(); ps != a->pendingSub.end(); ++ps) eff.insert(eff.end(), ps->second.begin(), ps->second.end());
+         bool subscribed = false; for (size_t i = 0; i < eff.size(); i++) if (RefPathMatch(eff[i], own)) subscribed = true;
+         if (R(4) == 0) { v.push_back(CmdSet(ix, false, false, (int32)R(100))); what = "SETDATA " + ix + " + "; }
+         const uint32 n = 1 + R(3); std::string chg; for (uint32 i = 0; i < n; i++) { std::string w; v.push_back(DataCommand(h, (OpKind)Restrict(*a, ik[R(5)]), w, &ix)); chg += w + " + "; }
+         // the snapshot request
+         MessageRef req; std::string rq; const uint32 r = R(10); const bool shallow = std::count(ix.begin(), ix.end(), '/') == 0;
+         if (r < 4) { const std::string p = (R(3) == 0 && shallow) ? std::string("*") : (R(4) == 0) ? own : ix; req = CmdGetData(p); rq = "GETDATA " + p; }
+         else {
+            std::string p = ix; if (r >= 7 && shallow) p = (R(2) && (ix == "L" || ix == "M")) ? "(L|M)" : "*";
+            const bool again = std::find(eff.begin(), eff.end(), p) != eff.end();
+            if (!again) { MessageRef pg = GetMessageFromPool(PR_COMMAND_PING); const int32 t = ++h.tag; (void)pg()->AddInt32("xtag", t); a->c->Send(pg); a->pendingSub[t] = Names(1, p); vh::stat("subscriptions_made"); }
+            req = CmdSubscribe(Names(1, p), false); rq = std::string(again ? "subscribes AGAIN " : "subscribes ") + p;
+         }
+         const bool reverse = R(5) == 0;
+         if (reverse) { v.insert(v.begin(), req); what = rq + " + " + what + chg; what.resize(what.size() - 3); } else { v.push_back(req); what += chg + rq; }
+         what = "BATCH{" + what + "}"; a->c->Send(CmdBatch(v)); vh::stat("batches");
+         vh::stat(reverse ? "batches_with_snapshot_request_then_index_change" : subscribed ? "batches_with_index_change_then_snapshot_request_by_subscribed_session" : "batches_with_index_change_then_snapshot_request_by_unsubscribed_session");
       } break;
       case OP_PAUSE: {
          Actor * p = PickLive(h); if (p == NULL || p->pauseLeft > 0 || p->subs.empty()) { counted = false; break; }
@@ -960,6 +985,27 @@ static void RegressSupercede()
    EXPECT(h, s->lists[L] == TrueIndex(h, L) && w->lists[L] == TrueIndex(h, L), "regress|supercede_pruned_a_queued_index_update", "replayed " + Join(s->lists[L]) + ", true index " + Join(TrueIndex(h, L)));
    vh::stat("regress_supercede");
 }
+// inside ONE BATCH: an index change followed by a snapshot request of the same node by a session subscribed to it (seeded/C13-7)
+static void RegressSnapshotInBatch()
+{
+   Bench bench; Hist h; h.b = &bench; { Options o; o.reflectToSelf = true; h.obs = bench.AddClient(o); }
+   Actor * a = AddActor(h, false); Actor * w = AddActor(h, false); const std::string L = a->c->root + "/L";
+   a->c->Send(CmdSubscribe(Names(1, "L"), false)); a->subs.push_back("L"); w->c->Send(CmdSubscribe(Names(1, "L"), false)); w->subs.push_back("L");
+   a->c->Send(CmdSet("L", false, false, 1)); a->c->Send(CmdInsert(Names(1, "L"), Names(2, "atEnd"))); h.log.push_back("the owner and a witness subscribe to L; SETDATA L; INSERTORDERED L x2"); Check(h);
+   for (int round = 0; round < 5 && !h.bad; round++) {
+      const Names B = TrueIndex(h, L); if (B.empty()) break;
+      std::vector<MessageRef> v; std::string what;
+      MessageRef chg = round == 2 ? CmdReorder("L/" + B[B.size() - 1], B[0]) : round == 3 ? CmdRemove("L/" + B[0], false) : CmdInsert(Names(1, "L"), Names(1, round ? B[0] : std::string("atEnd")));
+      MessageRef req = (round == 0 || round == 3) ? CmdGetData("L") : round == 1 ? CmdSubscribe(Names(1, "L"), false) : CmdSubscribe(Names(1, round == 2 ? "*" : "(L|M)"), false);
+      if (round == 2) a->subs.push_back("*"); if (round == 4) a->subs.push_back("(L|M)");
+      if (round == 4) { v.push_back(req); v.push_back(chg); } else { v.push_back(chg); v.push_back(req); }
+      a->c->Send(CmdBatch(v)); h.log.push_back(vh::fmt("round %d: BATCH{index change of L %s snapshot request covering L} by the owner", round, round == 4 ? "after" : "then"));
+      bench.Settle(); Process(h, *a); Process(h, *w);
+      EXPECT(h, a->errKey.empty() && a->lists[L] == TrueIndex(h, L), "regress|snapshot_overtook_pending_index_update", "the owner replayed " + Join(a->lists[L]) + " (" + a->errKey + "), the witness " + Join(w->lists[L]) + ", true index " + Join(TrueIndex(h, L)));
+      Check(h);
+   }
+   vh::stat("regress_snapshot_in_batch");
+}
 static void RegressOracleSelfTest()
 {
    // the replay function must object to every kind of misfit, and the comparison to a wrong list
@@ -995,6 +1041,7 @@ int main(int argc, char ** argv)
       vh::begin_case(6); RegressCloneTwice();
       vh::begin_case(7); RegressRefusals();
       vh::begin_case(8); RegressSupercede();
+      vh::begin_case(9); RegressSnapshotInBatch();
       vh::distinct(1, true);
    } else if (mode == "index") {
       const long nOps = vh::optl("ops", 80);
